@@ -126,8 +126,9 @@ class LemmaUnit(Unit):
     """prove `goal` (a clause over real functions used by contract, and spec functions) under `requires`"""
     kind = "lemma"
 
-    def __init__(self, name, module, params, requires, goal, props=(), setup=None):
+    def __init__(self, name, module, params, requires, goal, props=(), setup=None, allow=()):
         super().__init__(name, props)
+        self.allow = tuple(allow)
         self.module = module
         self.params = params
         self.requires = requires
@@ -142,7 +143,8 @@ class LemmaUnit(Unit):
         col = Collector()
         t0 = time.time()
         s0, q0 = STATS.solver_s, STATS.queries
-        verify_lemma(reg, self.name, self.module, self.params, self.requires, self.goal, col, setup=self.setup)
+        verify_lemma(reg, self.name, self.module, self.params, self.requires, self.goal, col, setup=self.setup,
+                     allow=self.allow)
         _collect(res, col, reg, self.name)
         res.wall = time.time() - t0
         res.solver_s = STATS.solver_s - s0
@@ -326,3 +328,12 @@ def run_units(units, tier, seed, jobs=None):
     for i, r in zip(order, results):
         out[i] = r
     return out
+
+
+def factory_unit(ctx, res, col, reg, module, factory, arg, label):
+    """verify a function against a contract built by a sidecar factory (variants of a contract)"""
+    import importlib
+    from .verify import verify_function
+    c = getattr(importlib.import_module(module), factory)(arg)
+    verify_function(reg, c, col, label=label)
+    res.functions.append(c.qualname)
